@@ -4,6 +4,8 @@ import Autd3.Drv.C18
 import Autd3.Drv.C14
 import Autd3.Drv.C06
 import Autd3.Drv.C04
+import Autd3.Drv.C13
+import Autd3.Drv.C05
 /-! `autd3model <stream>`: one request line in, one answer line out. -/
 
 partial def loop {σ : Type} (h : IO.FS.Stream) (out : IO.FS.Stream) (step : σ → String → σ × String) (s : σ) : IO Unit := do
@@ -23,6 +25,8 @@ def main (args : List String) : IO UInt32 := do
   | ["sampling"] | ["f32ops"] => loop stdin stdout Autd3.Drv.C06.step Autd3.Drv.C06.init; return 0
   | ["sender"] => loop stdin stdout Autd3.Drv.C04.step Autd3.Drv.C04.init; return 0
   | ["sender_async"] => loop stdin stdout Autd3.Drv.C04.step Autd3.Drv.C04.initAsync; return 0
+  | ["group"] => loop stdin stdout Autd3.Drv.C13.step Autd3.Drv.C13.init; return 0
+  | ["reject"] => loop stdin stdout Autd3.Drv.C05.step Autd3.Drv.C05.init; return 0
   | [s] =>
     if s.startsWith "fw_" then do loop stdin stdout Autd3.Drv.FwS.step Autd3.Drv.FwS.init; return 0
     else do IO.eprintln "unknown stream"; return 2
